@@ -336,7 +336,18 @@ impl<'a> FnCtx<'a> {
             50..=57 => {
                 // memory
                 if self.m.memory.is_some() {
-                    let off = if r.chance(1, 6) { r.next() as u32 } else { r.below(70000) as u32 };
+                    let mut off = if r.chance(1, 6) { r.next() as u32 } else { r.below(70000) as u32 };
+                    // accesses whose effective address straddles the end of the (initial) memory:
+                    // base + offset = size - k for k in 0..=9, so every access width sees both
+                    // its last in-bounds and its first out-of-bounds address
+                    let edge: Option<i32> = if r.chance(1, 5) {
+                        let size = self.m.memory.map(|(min, _)| min as u64 * 65536).unwrap_or(0);
+                        let ea = size.saturating_sub(r.below(10));
+                        off = if r.chance(1, 2) { r.below(ea.min(70000) + 1) as u32 } else { 0 };
+                        Some((ea - off as u64) as u32 as i32)
+                    } else {
+                        None
+                    };
                     match (self.top(0), self.top(1)) {
                         (Some(v), Some(Ty::I32)) if r.chance(1, 2) => {
                             let ops: &[(u8, u32)] = match v {
@@ -344,6 +355,15 @@ impl<'a> FnCtx<'a> {
                                 Ty::I64 => &[(0x37, 3), (0x3c, 0), (0x3d, 1), (0x3e, 2)],
                             };
                             let (op, al) = *r.pick(ops);
+                            if let Some(base) = edge {
+                                out.push(Instr::Op(OP_DROP));
+                                out.push(Instr::Op(OP_DROP));
+                                out.push(Instr::Const32(base));
+                                out.push(match v {
+                                    Ty::I32 => Instr::Const32(r.i32v()),
+                                    Ty::I64 => Instr::Const64(r.i64v()),
+                                });
+                            }
                             out.push(Instr::Mem(op, r.below(al as u64 + 1) as u32, off));
                             self.stack.pop();
                             self.stack.pop();
@@ -372,6 +392,10 @@ impl<'a> FnCtx<'a> {
                                     (0x35, 2, Ty::I64),
                                 ];
                                 let (op, al, t) = *r.pick(ops);
+                                if let Some(base) = edge {
+                                    out.push(Instr::Op(OP_DROP));
+                                    out.push(Instr::Const32(base));
+                                }
                                 out.push(Instr::Mem(op, r.below(al as u64 + 1) as u32, off));
                                 self.stack.pop();
                                 self.stack.push(t);
